@@ -143,6 +143,23 @@ CLAIMED.update({
         ref="DESIGN.md 3/C05"),
 })
 
+CLAIMED.update({
+    "C08": dict(
+        text="Shape-level inverse-pair proof on the real as_dict methods and the real json_decoder / _load_* functions: for Function (parameters, returns, decorators), "
+             "Attribute, Alias, Class (bases, decorators, members with restored parent links) and Module (path / built-in / namespace file paths), objects built by the real "
+             "constructors with symbolic fields are dumped (minimal form), decoded bottom-up by the real json_decoder and shown to reload without error, with every listed "
+             "field equal and an identical key set on re-serialisation. Whole trees, every expression class, both agents and the full form are a bounded native tier.",
+        note="JSON codec mirrored by the contract (nested as_dict, set->list, enum->value); cleandoc idempotence axiom; expressions as strings. Fixed: C08-D4/D13/D14/D15/D16; "
+             "known: C08-F1 (full form not reloadable), F4 (overloads), F5 (instance-attribute value scope), F6/F7 (full dump of namespace / built-in modules raises).",
+        ref="DESIGN.md 3/C08"),
+    "C09": dict(
+        text="docs/schema.json is re-read and interpreted on every run over the symbolic image of the real as_dict(full=True) of Function, Attribute, Alias, Class (with "
+             "attribute and alias members) and Module objects built by the real constructors: every path of the encoders yields a document the published schema accepts "
+             "(required keys, additionalProperties: false, types, enums, oneOf, if/then). Real dumps of generated modules are validated with jsonschema in the bounded tier.",
+        note="Path-like fields of full dumps are strings by contract; decorators carry line numbers (they only come from source). Fixed: C09-D8a/b/c (schema); known: C09-F6/F7.",
+        ref="DESIGN.md 3/C09"),
+})
+
 NA_REASON = {
     "C17": "relates two whole-program analyses through CPython's run-time object model; a contract for the inspector would have to assume the very "
            "object model the property compares against, so no obligation over /repo code alone implies agreement (DESIGN.md section 4)",
